@@ -65,8 +65,11 @@ var createChallengeRoles = map[string][4]string{
 	kProofUVerify: {`^arg#2$`, `^arg#3$`, `^call:gabi\.\(\*ProofU\)\.ChallengeContribution\(<gabi\.ProofU>,<gabikeys\.PublicKey>\)#0$`, `^false$`},
 	kListVerify:   {`^arg#2$`, `^arg#3$`, ``, `^arg#4$`},
 	"gabi.(ProofBuilderList).ChallengeWithRandomizers": {`^arg#1$`, `^arg#2$`, ``, `^arg#4$`},
-	"gabi.(*CredentialBuilder).proveCommitment":        {`^<gabi\.CredentialBuilder>\.context$`, `^arg#1$`, `^call:gabi\.\(\*CredentialBuilder\)\.Commit\(<gabi\.CredentialBuilder>,.*\)#0$`, `^false$`},
-	"gabi.KeyshareResponse":                            {`KeyshareResponseRequest.*\.Context$`, `KeyshareResponseRequest.*\.Nonce$`, ``, `KeyshareResponseRequest.*\.IsSignatureSession$`},
+	// (rooted at the exported entry: the call may sit in an unexported helper such as proveCommitment, which is
+	// then examined with its parameters bound to the entry's arguments)
+	"gabi.(*CredentialBuilder).CommitToSecretAndProve": {`^<gabi\.CredentialBuilder>\.context$`, `^arg#1$`, `^call:gabi\.\(\*CredentialBuilder\)\.Commit\(<gabi\.CredentialBuilder>,.*\)#0$`, `^false$`},
+	// the context, or the constant one in its place when it is absent (C14.b checks "only then")
+	"gabi.KeyshareResponse": {`^(phi\()?<gabi\.KeyshareResponseRequest.*>\.Context(\|global:gabi\.bigOne\))?$`, `KeyshareResponseRequest.*\.Nonce$`, ``, `KeyshareResponseRequest.*\.IsSignatureSession$`},
 }
 
 func init() {
@@ -136,33 +139,48 @@ func init() {
 				}
 				n := 0
 				seen := map[string]bool{}
+				inRoot := map[ssa.CallInstruction]bool{}
+				names := []string{"context", "nonce", "contributions", "issig"}
+				for key, roles := range createChallengeRoles {
+					root := P.Func(key)
+					if root == nil {
+						continue
+					}
+					deepVisit(P, root, 2, func(g *ssa.Function) {
+						if g != root && createChallengeRoles[FuncKey(g)] != [4]string{} {
+							return // another entry's own site
+						}
+						for _, c := range callsIn(g) {
+							if staticCallee(c) != cc || inRoot[c] {
+								continue
+							}
+							inRoot[c] = true
+							seen[key] = true
+							R.seen(key)
+							for i, re := range roles {
+								if re == "" {
+									continue
+								}
+								d := desc(c.Common().Args[i])
+								R.decide("C02.f", key+":"+names[i], "createChallenge argument '"+names[i]+"' originates from the caller's own "+names[i], matches(re)(d), "got "+d+" want "+re, P.Pos(c.Pos()))
+							}
+						}
+					})
+				}
 				for _, fn := range P.AllFuncs {
 					for _, c := range callsIn(fn) {
 						if staticCallee(c) != cc {
 							continue
 						}
 						n++
-						key := FuncKey(fn)
-						R.seen(key)
-						roles, ok := createChallengeRoles[key]
-						if !ok {
-							R.Notes = append(R.Notes, "untabled createChallenge call site in "+key+" (not checked for roles)")
-							continue
-						}
-						seen[key] = true
-						names := []string{"context", "nonce", "contributions", "issig"}
-						for i, re := range roles {
-							if re == "" {
-								continue
-							}
-							d := desc(c.Common().Args[i])
-							R.decide("C02.f", key+":"+names[i], "createChallenge argument '"+names[i]+"' originates from the caller's own "+names[i], matches(re)(d), "got "+d+" want "+re, P.Pos(c.Pos()))
+						if !inRoot[c] {
+							R.Notes = append(R.Notes, "untabled createChallenge call site in "+FuncKey(fn)+" (not checked for roles)")
 						}
 					}
 				}
 				for key := range createChallengeRoles {
 					if !seen[key] {
-						R.bad("C02.f", key+":site", "tabled call site of createChallenge exists", "no call to createChallenge found in "+key+" (challenge computed differently?)", "")
+						R.bad("C02.f", key+":site", "tabled call site of createChallenge exists", "no call to createChallenge found in "+key+" or its helpers (challenge computed differently?)", "")
 					}
 				}
 				R.decide("C02.f", "createChallenge:callsites", "at least 6 call sites of createChallenge", n >= 6, fmt.Sprintf("found %d", n), "")
